@@ -124,3 +124,11 @@ def hazard_rule(ctx, pid):
         ctx.fail(key, text, "line %d" % line)
     if not seen:
         ctx.ok("%s:dtype:none" % pid)
+
+
+def pos_multiple(x, want):
+    """x == q * want for a positive rational q"""
+    if want.is_zero():
+        return x.is_zero()
+    r = x / want
+    return r.is_const() and r.const_value() > 0
